@@ -165,7 +165,8 @@ def run(p):
                 windows = n * (1 + len(peer_cfg.get("rereq", [])))   # worst case window 1; re-requested windows are sent again
                 horizon = 0.05 + windows * (per + holds) + 2.0
                 if holds:
-                    horizon = min(horizon, 0.05 + n * per + min(n, 200) * holds + 2.0)
+                    nw = n * (1 + len(peer_cfg.get("rereq", [])))
+                    horizon = min(horizon, 0.05 + nw * per + min(nw, 200) * holds + 2.0)
             else:
                 interval = p["bam_dt"] if p["bam_dt"] is not None else (0.01 if fd else 0.05)
                 nmax = max([n] + [-(-c_["n"] // (60 if fd else 7)) for c_ in comp])
